@@ -1,6 +1,8 @@
 (* C08  One handler and at most one response per request.
    Statements only.  Model: coq/Server.v; monitors: coq/ServerMon.v (c08_ok, under the hypothesis
-   reuse_only_after_completion); proofs: coq/ServerState.v, coq/ServerWitness.v.
+   reuse_only_after_completion); proofs: coq/ServerState.v, coq/ServerWitness.v, coq/ServerProofsPA*.v
+   (monitor theorem), coq/ServerExecProofs2.v (through execute()), coq/ChainResp2.v, ChainResp3.v
+   (composition).
 
    Proved here (state form, for every transport and every state):
      - a request whose id is tracked is ignored (start_request refuses it; BaseChannel::poll_next
@@ -9,18 +11,18 @@
        (so at most one response per tracked incarnation leaves the channel); a response for an
        untracked id is dropped without any transport call;
      - the hypothesis reuse_only_after_completion (B1) is NECESSARY: _refuted witness.
-   NOT yet proved as a theorem (checked on every run by the monitor on the real code's traces and by
-   the correspondence):
+   Monitor theorem (proved, see the end of the single-channel part of this file; the monitor is also
+   evaluated on the real code's traces on every run, and the model is tied by the correspondence):
      C08_monitor : forall c t0 ops, c08_ok c ops (fst (srun c t0 ops)) = true
    i.e. under reuse_only_after_completion and stops_after_error: every request read is yielded
    exactly once or ignored because its id is surely in flight (or throttled, C12); every response
    written answers the latest incarnation of its id, which is not yet closed by its Cancel /
    expiry / an earlier answer, with exactly the value its handler completed with; nothing is
    written after the channel is dropped.  The exact statement, for every transport, is pinned as
-   ServerSpec.stmt_s08 (flag level: stmt_s_v08).  The simulation it needs is proved along every run
-   for the unconditional part of the invariant (ServerSim6.run_top); the part that depends on the
-   hypothesis (surely-open => tracked, provenance of queued responses, no stale server cancel) is
-   not proved. *)
+   ServerSpec.stmt_s08 (flag level: stmt_s_v08).  The simulation it needs is proved along every run:
+   the unconditional part of the invariant in ServerSim6.run_top, the part that depends on the
+   hypothesis (surely-open => tracked, provenance of queued responses, no stale server cancel) as
+   the invariant InvH of ServerProofsPA0-PA4 (ServerProofsPA4.s08_proved). *)
 From Coq Require Import List Bool Arith NArith.
 Import ListNotations.
 From TarpcV Require Import Base Transport TimerWheel Server ServerMon ServerWitness ServerState.
@@ -85,6 +87,20 @@ Theorem C08_monitor : forall (T C : Type) (tp : transport T response cmsg) (ctl 
   c08_ok c ops (fst (run tp ctl tfuel c t0 ops)) = true.
 Proof. exact s08_proved. Qed.
 
+(* for a channel driven through tarpc's own execute() (ServerExec.v: futures TakeWhile/FilterMap/Map
+   transcribed, tied to the real Channel::execute by the srvx driver): stops_after_error is
+   discharged, only B1 (and the known class) remains *)
+From TarpcV Require Import ServerExec ServerExecProofs ServerExecProofs2.
+Theorem C08_monitor_exec : forall (T C : Type) (tp : transport T response cmsg) (ctl : T -> C -> T)
+    (tfuel : T -> nat) (c : cfg) (t0 : T) (eops : list (eop C)),
+  tfuel_ok tp tfuel ->
+  let ops := exec_ops tp ctl tfuel c t0 eops in
+  let v := observe c ops (exec_trace tp ctl tfuel c t0 eops) in
+  c08_ok c ops (exec_trace tp ctl tfuel c t0 eops) = true
+  /\ h_stop v = true /\ v_bad v = false /\ (h_b1 v = true -> v08 v = true).
+Proof. exact ServerExecProofs2.C08_monitor_exec. Qed.
+
+Print Assumptions C08_monitor_exec.
 Print Assumptions C08_duplicate_ignored.
 Print Assumptions C08_response_untracked_dropped.
 Print Assumptions C08_response_tracked_written_once.
